@@ -529,26 +529,43 @@ func branchHeaderDecl(p *an.Prog, f *an.Fn, n ast.Node, declarers map[*an.Fn][]t
 	return kind
 }
 
-// sameConstruct: positions a and b lie in the same function and, when that function dispatches on node
-// types with a switch, in the same case clause of it.
+// sameConstruct: the scope pushed at a belongs to the statement that declares at b — both lie in the same
+// function and in the same arm of its dispatch on node types (the clauses of a switch with a tag or of
+// a type switch; a tag-less `switch { case cond: }` is an if-else chain and separates nothing).  The
+// declaration may sit deeper, in a dispatch of its own inside that arm.
 func sameConstruct(f *an.Fn, a, b token.Pos) bool {
 	p := f.P
 	fa, fb := p.OwnerFn(a), p.OwnerFn(b)
 	if fa == nil || fb == nil || fa != fb {
 		return false
 	}
-	clause := func(pos token.Pos) *ast.CaseClause {
+	arm := func(pos token.Pos, innermost bool) *ast.CaseClause {
 		var best *ast.CaseClause
 		ast.Inspect(fa.Body, func(n ast.Node) bool {
 			if n == nil || pos < n.Pos() || pos >= n.End() {
 				return n == nil || false
 			}
-			if cc, ok := n.(*ast.CaseClause); ok {
-				best = cc
+			var clauses []ast.Stmt
+			switch sw := n.(type) {
+			case *ast.SwitchStmt:
+				if sw.Tag != nil {
+					clauses = sw.Body.List
+				}
+			case *ast.TypeSwitchStmt:
+				clauses = sw.Body.List
+			}
+			for _, cl := range clauses {
+				if cc := cl.(*ast.CaseClause); cc.Pos() <= pos && pos < cc.End() && (innermost || best == nil) {
+					best = cc
+				}
 			}
 			return true
 		})
 		return best
 	}
-	return clause(a) == clause(b)
+	push := arm(a, true)
+	if push == nil {
+		return arm(b, false) == nil
+	}
+	return push.Pos() <= b && b < push.End()
 }
